@@ -1508,10 +1508,16 @@ func (c *clipperBase) checkJoinRight(e *Active, pt Point64, checkCurrX bool) {
 
 	if e.outrec.idx == next.outrec.idx {
 		c.addLocalMaxPoly(e, next, pt)
-	} else if e.outrec.idx < next.outrec.idx {
-		c.joinOutrecPaths(e, next)
 	} else {
-		c.joinOutrecPaths(next, e)
+		// both rings must end at pt before they are linked, otherwise the joined
+		// ring jumps between whatever vertices the two edges emitted last
+		addOutPt(e, pt)
+		addOutPt(next, pt)
+		if e.outrec.idx < next.outrec.idx {
+			c.joinOutrecPaths(e, next)
+		} else {
+			c.joinOutrecPaths(next, e)
+		}
 	}
 
 	e.joinWith = JoinRight
@@ -1546,10 +1552,15 @@ func (c *clipperBase) checkJoinLeft(e *Active, pt Point64, checkCurrX bool) {
 
 	if e.outrec != nil && prev.outrec != nil && e.outrec.idx == prev.outrec.idx {
 		c.addLocalMaxPoly(prev, e, pt)
-	} else if e.outrec != nil && prev.outrec != nil && e.outrec.idx < prev.outrec.idx {
-		c.joinOutrecPaths(e, prev)
 	} else {
-		c.joinOutrecPaths(prev, e)
+		// both rings must end at pt before they are linked (see checkJoinRight)
+		addOutPt(prev, pt)
+		addOutPt(e, pt)
+		if e.outrec != nil && prev.outrec != nil && e.outrec.idx < prev.outrec.idx {
+			c.joinOutrecPaths(e, prev)
+		} else {
+			c.joinOutrecPaths(prev, e)
+		}
 	}
 
 	prev.joinWith = JoinRight
